@@ -77,7 +77,7 @@ def positions(a):
     return [(type(n).__name__, n.lineno, n.col_offset, n.end_lineno, n.end_col_offset) for n in ast.walk(a) if hasattr(n, 'end_col_offset')]
 
 
-def make_letter_fn(name: str, src: str, script, queries=None, validate=None, extra=''):
+def make_letter_fn(name: str, src: str, script, queries=None, validate=None, extra='', pre=None):
     """script(root) performs edits (same code for the marker run and the symbolic run) and may return a root to judge
     (default: the root it was given). queries(root) -> list of (label, value) read-only answers compared as re-lettered."""
     L = Lettered(src, extra=extra)
@@ -105,6 +105,8 @@ def make_letter_fn(name: str, src: str, script, queries=None, validate=None, ext
     def fn(*xs):
         for x in xs:
             assume(okcp(x) and x >= 0x80)
+        if pre is not None:
+            assume(pre(xs))
         ref_lines, ref_pos, ref_q = marker_run()
         f = L.build(xs)
         f2 = (script(f, lambda m_: L.text(m_, xs)) if script2 else script(f)) or f
@@ -150,8 +152,8 @@ FN = ['fst.astutil.bistr.c2b', 'fst.astutil.bistr.b2c', 'fst.fst_core._put_src',
       'fst.fst.FST.loc', 'fst.fst.FST.pars']
 
 
-def letter_cell(prefix, name, src, script, queries=None, tier='quick', budget=400, validate=None, extra=''):
-    fn, L = make_letter_fn(name, src, script, queries, validate, extra)
+def letter_cell(prefix, name, src, script, queries=None, tier='quick', budget=400, validate=None, extra='', pre=None):
+    fn, L = make_letter_fn(name, src, script, queries, validate, extra, pre)
     return Cell(f'{prefix}.letter[{name}]', fn, 'T', FN,
                 f'carrier {src!r}: each of the {L.k} marker characters ranges over EVERY Unicode scalar value >= U+0080 (all UTF-8 widths 2-4); '
                 'fixed operation script; source text and all node positions compared symbolically',
